@@ -99,7 +99,7 @@ def rand_tt(rng, row_dims, col_dims, ranks, cplx=False, kind='gauss', scale=None
     return t
 
 
-def provenance(rng, t, steps=None):
+def provenance(rng, t, steps=None, reorder=False):
     """Operands with a history: the object is passed through value-preserving library operations (in-place sweeps, copies,
     re-construction with a negligible threshold ...) before it is used, so that anything an object carries along besides its
     cores (markers, cached quantities, shared buffers) is exercised.  The contracts snapshot the operand they are given, so
@@ -109,8 +109,19 @@ def provenance(rng, t, steps=None):
     n = int(rng.integers(1, 3)) if steps is None else steps
     with probe.oracle():
         for _ in range(n):
-            k = int(rng.integers(0, 9))
+            k = int(rng.integers(0, 13))
             try:
+                if k == 9:  # a core replaced by its owner (what the solvers do all the time): no method is told about it
+                    j = int(rng.integers(0, t.order))
+                    t.cores[j] = t.cores[j] * float(rng.uniform(0.5, 2.0))
+                elif k == 10:
+                    t.conj(overwrite=True)
+                elif k == 11 and reorder and t.ranks[0] == 1 and t.ranks[-1] == 1:
+                    t.rank_transpose(overwrite=True)  # (reverses the mode order: the contracts snapshot whatever they are given)
+                elif k == 12 and int(np.prod(t.row_dims, dtype=np.int64)) * int(np.prod(t.col_dims, dtype=np.int64)) <= 4096 and t.ranks[0] == 1 and t.ranks[-1] == 1:
+                    x = t.full()
+                    if np.any(x):
+                        t = TT(x)  # TT-SVD output (left-orthonormal cores)
                 if k == 0:
                     t = t.copy()
                 elif k == 1:
